@@ -127,9 +127,24 @@ func genAEValue(r *emit.Rng) string {
 
 // header values for Accept-Encoding: nil = header absent
 func genAE(r *emit.Rng) []string {
-	switch r.Intn(12) {
+	switch r.Intn(14) {
 	case 0:
 		return nil
+	case 12, 13: // an explicit entry next to a wildcard, either order: the explicit one decides
+		qs := []string{"", ";q=0", ";q=0", ";q=0.3", ";q=0.5", ";q=1", ";q=0.000", ";q=0.001"}
+		e := []string{"gzip", "zstd", "identity", "br"}[r.Intn(4)] + qs[r.Intn(len(qs))]
+		w := "*" + qs[r.Intn(len(qs))]
+		parts := []string{e, w}
+		if r.Bool() {
+			parts = []string{w, e}
+		}
+		if r.Chance(1, 3) {
+			parts = append(parts, []string{"gzip", "zstd", "deflate"}[r.Intn(3)]+qs[r.Intn(len(qs))])
+		}
+		if r.Chance(1, 4) {
+			return parts // as separate header lines
+		}
+		return []string{strings.Join(parts, []string{",", ", "}[r.Intn(2)])}
 	case 1:
 		return []string{genAEValue(r), genAEValue(r)}
 	case 2:
@@ -828,7 +843,7 @@ var accepts = []string{
 
 var plausibleAE = []string{"gzip", "zstd", "gzip, deflate, br", "gzip, deflate, br, zstd", "zstd;q=1.0, gzip;q=0.8", "gzip;q=1.0, zstd;q=0.8", "*",
 	"identity", "gzip;q=0.5, zstd;q=0.5", "zstd;q=0.5, gzip;q=0.5", "*;q=0.1, gzip;q=0", "*;q=0.3, zstd;q=0", "br, *;q=0.2", "identity;q=0, gzip",
-	"gzip;q=0.001", "zstd;q=0.000, gzip;q=0.001", "deflate, gzip;q=0.9, identity;q=1", "x-gzip, gzip"}
+	"gzip;q=0, *;q=0.1", "zstd;q=0, *", "gzip;q=0.001", "zstd;q=0.000, gzip;q=0.001", "deflate, gzip;q=0.9, identity;q=1", "x-gzip, gzip"}
 
 func genReqCase(r *emit.Rng, server bool) *reqCase {
 	c := &reqCase{server: server}
